@@ -361,6 +361,7 @@ def run(ctx):
                 sig = f'{h.stage}:{h.kind}:{v["inv"]}'
             ctx.report(sig, f'{CL.get(v["inv"], v["inv"])} - stage {h.stage}, history {h.kind}, event '
                             f'{v["reached"]}: {ev}', {'history': h.name, 'event': ev})
+    _same_name_outputs(ctx, base, pipe, expect)
     ctx.sample({'history': owners[0].name, 'events': traces[0]['events'][:12]})
     ctx.part('c2s', histories=len(histories), events=sum(len(t['events']) for t in traces), rejected=rej,
              stages=stage_list)
@@ -378,6 +379,54 @@ def run(ctx):
     ctx.cov['selftest'] = {'corrupted': 3, 'rejected': 3 - acc, 'clauses': [v['inv'] for v in sv]}
     if acc:
         raise MachineryError(f'self-test: {acc} corrupted syscall traces accepted')
+
+
+def _same_name_outputs(ctx, base, pipe, expect):
+    """H8 two concurrent validations that derive their output name from the input name and the
+    clock (output_dir mode): started within the same second (ScratchFS_MC with UseStamp = TRUE says
+    the two runs then share an entry).  Each must still return the clean result."""
+    mapper = {g: f'ENSMUSG{i:011d}' for i, g in enumerate(pipe['ref']['genes']) if i % 2 == 0}
+    exercised = False
+    for attempt in range(3):
+        d = ctx.tmpdir('hist_validate_same_name_')
+        for sub in ('scratch', 'out', 'sentinel'):
+            (d / sub).mkdir()
+        jobs = []
+        for run in (1, 2):
+            job = {'stage': 'validate', 'run': run, 'sentinel_dir': str(d / 'sentinel'), 'plan': None,
+                   'trace_dir': str(d / f'hooks_{run}'), 'end_token': None, 'barrier': str(d / 'sentinel'),
+                   'n_jobs': 2, 'align_second': True,
+                   'args': {'h5ad': str(base / 'query.h5ad'), 'tmp': str(d / 'scratch'), 'mapper': mapper,
+                            'output_dir': str(d / 'out')}}
+            jp, op = d / f'job_{run}.json', d / f'out_{run}.json'
+            json.dump(job, open(jp, 'w'))
+            jobs.append([str(jp), str(op), {}])
+        json.dump({'mode': 'par', 'jobs': jobs}, open(d / 'launch.json', 'w'))
+        env = dict(os.environ)
+        env['PYTHONPATH'] = ROOT + ':' + env.get('PYTHONPATH', '')
+        subprocess.run(['/venv/bin/python', '-W', 'ignore', '-m', 'harness.launch', str(d / 'launch.json')],
+                       env=env, cwd=ROOT, capture_output=True, text=True, timeout=300)
+        outs = [json.load(open(op)) for _, op, _ in jobs]
+        names = set(os.listdir(d / 'out'))
+        returned = [o.get('returned') for o in outs if o['ok']]
+        same = len(names) < 2 or len(set(str(r) for r in returned)) < len(returned) or not all(o['ok'] for o in outs)
+        if not same:
+            continue                        # the two runs fell into different seconds: not the history wanted
+        exercised = True
+        ctx.count({'stage': 'validate', 'kind': 'concurrent_same_name'}, nontrivial=True)
+        for o in outs:
+            if not o['ok']:
+                ctx.report('validate:output_dir:name-collision',
+                           f'two concurrent validations into one output directory: one ended with {o["error"]}',
+                           {'history': 'validate_concurrent_same_name'})
+                break
+            if o['digest'] != expect['validate']:
+                ctx.report('validate:output_dir:name-collision',
+                           'two concurrent validations into one output directory: a returned file differs from '
+                           'the clean result', {'history': 'validate_concurrent_same_name'})
+                break
+        break
+    ctx.part('c2s', same_name_history_exercised=exercised)
 
 
 def replay(ctx, path):
